@@ -1239,8 +1239,171 @@ fn targeted_program(rng: &mut Rng) -> String {
     }
 }
 
+/// Generic perturbations, applied on top of any family so that the features individual seeded
+/// changes needed (many names in scope, near-miss names, holes instead of annotations, forward
+/// references, repeated diagnostics, awkward layout, long types) occur *in combination* with
+/// everything else rather than only in their own family.
+pub fn perturb(rng: &mut Rng, source: &str) -> String {
+    let mut text = source.to_owned();
+    let rounds = rng.range(1, 3);
+    for _ in 0..rounds {
+        let lines: Vec<String> = text.split_inclusive('\n').map(str::to_owned).collect();
+        // top-level definition lines: `name = …` / `name : T = …` starting in column 0
+        let is_def = |l: &str| {
+            let t = l.trim_end();
+            !t.is_empty()
+                && !t.starts_with(' ')
+                && !t.starts_with('\t')
+                && !t.starts_with('(')
+                && !t.starts_with('#')
+                && t.split_whitespace().nth(1).is_some_and(|w| w == "=" || w == ":")
+        };
+        text = match rng.below(9) {
+            0 => {
+                // many more names in scope (thresholds: 10, 16, 32, 64, 128)
+                let n = *rng.pick(&[12usize, 20, 36, 70, 140]);
+                let stem = *rng.pick(&["fill", "item", "aux_", "v"]);
+                let mut filler = String::new();
+                for k in 0..n {
+                    filler.push_str(&format!("{stem}{k:03} = {k}\n"));
+                }
+                format!("{filler}{text}")
+            }
+            1 => {
+                // a near-miss of a name that is used: drop, double or change one character
+                let tokens = rough_tokens(&text);
+                let idents: Vec<usize> = tokens
+                    .iter()
+                    .enumerate()
+                    .filter(|(_, t)| {
+                        t.len() >= 2
+                            && t.chars().next().is_some_and(|c| c.is_alphabetic())
+                            && !KEYWORDS.contains(&t.as_str())
+                    })
+                    .map(|(i, _)| i)
+                    .collect();
+                if idents.is_empty() {
+                    text
+                } else {
+                    let mut tokens = tokens;
+                    let at = idents[rng.below(idents.len())];
+                    let word: Vec<char> = tokens[at].chars().collect();
+                    let pos = rng.below(word.len());
+                    let mut w = word.clone();
+                    match rng.below(3) {
+                        0 => {
+                            w.remove(pos);
+                        }
+                        1 => w.insert(pos, word[pos]),
+                        _ => w[pos] = if word[pos] == 'x' { 'y' } else { 'x' },
+                    }
+                    tokens[at] = w.into_iter().collect();
+                    join_tokens(&tokens)
+                }
+            }
+            2 => {
+                // a hole instead of an annotation
+                let needles = [" : int)", " : bool)", " : type)", " : a)", " : int =", " : bool ="];
+                let needle = needles[rng.below(needles.len())];
+                if let Some(pos) = text.find(needle) {
+                    let replacement = needle.replace("int", "_").replace("bool", "_").replace("type", "_").replace(": a", ": _");
+                    format!("{}{}{}", &text[..pos], replacement, &text[pos + needle.len()..])
+                } else {
+                    text
+                }
+            }
+            3 => {
+                // forward references: move a definition line further down (or up)
+                let defs: Vec<usize> = lines.iter().enumerate().filter(|(_, l)| is_def(l)).map(|(i, _)| i).collect();
+                if defs.len() >= 2 {
+                    let mut lines = lines;
+                    let a = defs[rng.below(defs.len())];
+                    let b = defs[rng.below(defs.len())];
+                    lines.swap(a, b);
+                    lines.concat()
+                } else {
+                    text
+                }
+            }
+            4 => {
+                // the same diagnostic several times: repeat a line under fresh names, or verbatim
+                let defs: Vec<usize> = lines.iter().enumerate().filter(|(_, l)| is_def(l)).map(|(i, _)| i).collect();
+                if defs.is_empty() {
+                    text
+                } else {
+                    let mut lines = lines;
+                    let at = defs[rng.below(defs.len())];
+                    let line = lines[at].clone();
+                    let copies = rng.range(1, 4);
+                    for c in 0..copies {
+                        let copy = if rng.chance(1, 3) {
+                            line.clone()
+                        } else {
+                            match line.split_once(' ') {
+                                Some((name, rest)) => format!("{name}_{c} {rest}"),
+                                None => line.clone(),
+                            }
+                        };
+                        lines.insert(at + 1, copy);
+                    }
+                    lines.concat()
+                }
+            }
+            5 => {
+                // awkward layout: a tab after `=`, a long comment with multi-byte text, CRLF
+                match rng.below(3) {
+                    0 => text.replacen(" = ", " =\t", rng.range(1, 3)),
+                    1 => {
+                        let mut lines = lines;
+                        if !lines.is_empty() {
+                            let at = rng.below(lines.len());
+                            let body = lines[at].trim_end_matches('\n').to_owned();
+                            let pad: String =
+                                (0..rng.range(40, 160)).map(|i| if i % 5 == 4 { 'é' } else { 'c' }).collect();
+                            lines[at] = format!("{body} # {pad}\n");
+                        }
+                        lines.concat()
+                    }
+                    _ => text.replace('\n', "\r\n"),
+                }
+            }
+            6 => {
+                // long types: wrap the whole program in many parameters
+                let n = rng.range(25, 120);
+                let binders: String = (0..n).map(|i| format!("(w{i} : int) => ")).collect();
+                format!("{binders}(\n{}\n)\n", text.trim_end())
+            }
+            7 => {
+                // an unused definition group in front that is itself in error
+                let junk = match rng.below(4) {
+                    0 => "junk1 = junk2 + 1\njunk2 = 2 + 2\n",
+                    1 => "junk1 : bool = 1\njunk2 : int = true\n",
+                    2 => "junk1 = missing_a + missing_a\njunk2 = missing_b + missing_b\n",
+                    _ => "junk1 = (q : _) => (r : _) => q\n",
+                };
+                format!("{junk}{text}")
+            }
+            _ => {
+                // the body applied to / wrapped in something that makes it a bigger value
+                format!("wrapped = (\n{}\n)\n(z : int) => wrapped\n", text.trim_end())
+            }
+        };
+    }
+    text
+}
+
 /// Generated case number `index` of the stream; `corpus` is W1.
 pub fn generate(rng: &mut Rng, corpus: &[String]) -> Case {
+    let case = generate_base(rng, corpus);
+    // one case in four is perturbed (the family label keeps its base)
+    if rng.chance(1, 4) && case.source.len() < 6000 {
+        Case { family: case.family, source: perturb(rng, &case.source) }
+    } else {
+        case
+    }
+}
+
+fn generate_base(rng: &mut Rng, corpus: &[String]) -> Case {
     // Swarm: the mix is itself drawn per case.
     let family = rng.below(100);
     let base_from_corpus = |rng: &mut Rng| -> String {
